@@ -13,7 +13,7 @@ ASSUMPTIONS = ["reference secp256k1 / Base58Check in vf/ref", "SEC1 hybrid/compa
 NSHARDS = {"quick": 32, "thorough": 64}
 BUDGET_S = {"quick": 200, "thorough": 1800}
 MIN_HITS = {
-    'quick': {"key": 128, "edge_key": 42, "addr_hash": 1472, "leading_zero_hash": 1281, "addr_corrupt": 1440, "addr_len": 768, "wif_corrupt": 2560, "pub_candidate": 880, "pub_offcurve": 473, "unlock": 128, "prefix_nonzero": 967},
+    'quick': {"key": 256, "edge_key": 87, "addr_hash": 5632, "leading_zero_hash": 1281, "addr_corrupt": 1440, "addr_len": 769, "wif_corrupt": 3584, "pub_candidate": 880, "pub_offcurve": 473, "unlock": 128, "prefix_nonzero": 5180},
     'thorough': {"key": 23040, "addr_hash": 38860, "leading_zero_hash": 36864, "addr_corrupt": 276480, "wif_corrupt": 460800, "pub_candidate": 115200, "pub_offcurve": 61788, "unlock": 23040},
 }
 EDGE = [1, 2, 3, (ec.N - 1) // 2, (ec.N + 1) // 2, ec.N - 2, ec.N - 1]
